@@ -5,7 +5,7 @@ replayed to a freshly keyed real receiver after every single-point edit (every b
 {xor 01, xor 80, xor ff, delete, insert 00, truncate}), every packet swap / drop / duplication, and
 (thorough) double bit flips.  Oracle: what the receiver delivers is an unmodified prefix of what
 was sent - only packets lying intact in front of the first changed byte - after which it raises or
-waits for more data.
+waits for more data.  A reader that keeps calling read_message after a rejection still only gets that prefix.
 """
 import itertools
 
@@ -16,7 +16,8 @@ PID = "C02"
 META = {
     "level": "fault_enumeration",
     "technique": "exhaustive single-fault (and bounded double-fault) enumeration over recorded ciphertext streams, "
-                 "replayed into a freshly keyed real receiver Transport, each followed by silence or end-of-file",
+                 "replayed into a freshly keyed real receiver Transport, each followed by silence or end-of-file; the "
+                 "receiver is read on after every rejection",
     "text": "Per suite a 3-message stream (5, 40, 17 bytes) recorded after NEWKEYS: every byte position x {xor 0x01, "
             "xor 0x80, xor 0xff, delete, insert 0x00, truncate}; every swap of two packets, every drop, every "
             "duplication/replay position; new dimension 'large packet': streams whose middle message fills a maximum-size "
@@ -25,7 +26,10 @@ META = {
             "(thorough: 16th) position in between, and xor 0xff / delete / insert / truncate at every 1024th position; "
             "every edit of the short streams is run twice - new dimension 'stream end': after the edited bytes recv() "
             "blocks (the receiver waits) or returns end-of-file (the attacker closes the connection, i.e. a deletion of "
-            "everything that follows); thorough adds all pairs of bit flips inside the first packet and (length-"
+            "everything that follows); new dimension 'reader keeps reading': whenever read_message rejected the edited "
+            "stream (raised anything but end-of-file) the same receiver is asked again, up to 8 more read_message calls or "
+            "until the bytes run out, and everything delivered before and after the rejection(s) must still be an "
+            "unmodified prefix of the sent sequence; thorough adds all pairs of bit flips inside the first packet and (length-"
             "field byte, any byte) pairs. Quick: all 144 suites client->server plus 14 class representatives "
             "server->client; thorough: all 144 suites, both directions, plus 81 streams that cross a re-key between class representatives. The receiver must deliver only an unmodified prefix of the sent "
             "messages - no message decoded from bytes at or after the first changed byte - then raise or wait.",
@@ -222,8 +226,79 @@ def outcome_of(r):
 ENDS = ("waits", "eof")     # what recv() answers once the (edited) stream is used up: block | b"" (connection closed)
 
 
+KEEP_READING = 8           # dimension "reader keeps reading": read_message calls made after the first rejection
+
+
+def receive_keep(direction, script, stream, extra_reads=2, eof=False, keep=KEEP_READING):
+    """P.receive (whole reads) plus the dimension 'reader keeps reading after a rejection': when read_message has
+    raised on the edited stream (anything but end-of-file), the same receiver is asked again up to `keep` times, until
+    the byte queue runs dry or reports end-of-file.  Up to the first failure the result is exactly P.receive's;
+    `after` = messages delivered by the later calls, `rejections` = read_message calls that raised, `after_end` = how
+    the continued reading ended (waits | eof | cap)."""
+    link = P.Link(direction)
+    q = link.q
+    q.feed(stream)
+    q.eof = eof
+    r = P.Received()
+    r.after, r.rejections, r.after_end = [], 0, None
+    i = 0
+    try:
+        for i, it in enumerate(script):
+            if it[0] == "switch":
+                link.rx_switch((it[1], it[2], it[3]), strict=it[4])
+            elif it[0] == "auth":
+                link.rx._auth_trigger()
+            else:
+                ptype, body = link.read()
+                r.got.append(bytes([ptype]) + body)
+            r.done += 1
+        for _ in range(extra_reads):
+            i = len(script)
+            ptype, body = link.read()
+            r.got.append(bytes([ptype]) + body)
+            r.done += 1
+        r.item = None
+    except P.NeedMoreData:
+        r.waits = True
+        r.item = i
+    except Exception as e:  # noqa: BLE001 - judge() decides
+        r.error = e
+        r.item = i
+    r.leftover = len(q.buf)
+    if r.error is not None and not isinstance(r.error, (EOFError, P.NotNewkeys)):
+        r.rejections = 1
+        r.after_end = "cap"
+        for _ in range(keep):
+            try:
+                ptype, body = link.read()
+                r.after.append(bytes([ptype]) + body)
+            except P.NeedMoreData:
+                r.after_end = "waits"
+                break
+            except EOFError:
+                r.after_end = "eof"
+                break
+            except Exception:  # noqa: BLE001 - a further rejection: allowed
+                r.rejections += 1
+    r.recv_calls = q.recv_calls
+    return r
+
+
+def judge_after(sent, r):
+    """Reader that keeps calling read_message after a rejection: everything delivered, before and after the failed
+    call(s), must still be an unmodified prefix of the sent sequence (the statement's literal clause; a packet that
+    verifies later *in its place* is accepted)."""
+    for k, g in enumerate(r.got + r.after):
+        if k >= len(sent):
+            return "delivered-extra-message-after-rejection"
+        if g != sent[k]:
+            return ("delivered-reordered-message-after-rejection" if g in sent
+                    else "delivered-different-message-after-rejection")
+    return None
+
+
 def run_edit(direction, script, newkeys, sent, edited, end="waits"):
-    return P.receive(direction, script, newkeys + edited, extra_reads=2, eof=(end == "eof"))
+    return receive_keep(direction, script, newkeys + edited, extra_reads=2, eof=(end == "eof"))
 
 
 def run_edits(acc, direction, suite, suite2, cls, script, newkeys, packets, sent, regions, edits, ends, large=False):
@@ -241,6 +316,15 @@ def run_edits(acc, direction, suite, suite2, cls, script, newkeys, packets, sent
             if clause == "accepted-tampered-packet" and not STRICT_TAMPERED_PACKET:
                 acc.count("tampered_packets_accepted_unchanged")
                 clause = None
+            if r.rejections:
+                acc.count("streams_read_on_after_a_rejection")
+                acc.count("read_calls_after_first_rejection", r.rejections - 1 + len(r.after)
+                          + (r.after_end != "cap"))
+                acc.count("continued_reading_ended:" + r.after_end)
+                if r.after and not clause:
+                    clause = judge_after(sent, r)
+                    if not clause:
+                        acc.count("deliveries_after_rejection_still_in_place", len(r.after))
             if clause:
                 dims = {"framing": cls, "mac": "-" if cls in ("gcm", "rekey") else suite[1], "zlib": suite[2] != "none",
                         "edit": "flip" if EDIT_CLASS[lab] == "flip2" else EDIT_CLASS[lab], "end": end,
@@ -254,13 +338,16 @@ def run_edits(acc, direction, suite, suite2, cls, script, newkeys, packets, sent
                                     "message_lengths": [len(x) for x in sent],
                                     "offset_in_large_packet": offset_class(lcp - len(packets[0])) if large else None,
                                     "delivered": [g[:24] for g in r.got], "sent": [x[:24] for x in sent],
+                                    "delivered_after_rejection": [g[:24] for g in r.after],
+                                    "read_calls_that_raised": r.rejections,
                                     "then": outcome_of(r) if (r.waits or r.error) else "none"}, rep)
             elif large:
-                acc.nt(("large", suite, EDIT_CLASS[lab], region, (lcp - len(packets[0])) // 4096, r.done - 1, end))
+                acc.nt(("large", suite, EDIT_CLASS[lab], region, (lcp - len(packets[0])) // 4096, r.done - 1, end,
+                        r.after_end))
                 acc.count("large_packet_edits")
                 acc.count("outcome:" + outcome_of(r))
             else:
-                acc.nt((suite, suite2, EDIT_CLASS[lab], region, r.done - 1, end))
+                acc.nt((suite, suite2, EDIT_CLASS[lab], region, r.done - 1, end, r.after_end))
                 acc.count("outcome:" + outcome_of(r))
                 acc.count("packets_accepted_before_stop_%d" % (r.done - 1))
 
@@ -351,12 +438,16 @@ def main(tier):
         "case = (suite, direction, one edit of the recorded ciphertext stream) replayed into a fresh receiver. "
         "nontrivial = distinct (cipher, MAC, compression, edit class [flip|delete|insert|truncate|swap|drop|replay|"
         "flip2], what recv() answers when the edited stream is used up [waits | eof], region of the first changed byte as located by the independent decoder [length|padlen|payload|"
-        "padding|mac, or whole packet], number of messages delivered before the receiver stopped) tuples whose edit "
+        "padding|mac, or whole packet], number of messages delivered before the receiver stopped, how reading on after "
+        "the first rejection ended [not rejected | waits | eof | 8 more calls made]) tuples whose edit "
         "really changed the stream and for which the oracle held; large-packet streams add the 4 KiB bucket of the "
         "first changed byte inside the 35000-byte packet",
         ["receiver keyed like the sender from fixed K/H/session id; sender side is paramiko (recorded once per suite)",
          "adversary bounded to one edit per stream (thorough: also two bit flips), each followed by either silence or a "
          "closed connection; recv() otherwise returns exactly what is asked",
+         "a caller that keeps calling read_message after it raised makes at most %d further calls; a packet that "
+         "verifies after a rejection in its original place in the sequence (CBC re-synchronises after a rejected "
+         "replayed packet) is an unmodified prefix and accepted" % KEEP_READING,
          "STRICT_TAMPERED_PACKET=%s: a packet that is no longer byte-identical to the sender's must not be delivered "
          "even if it decodes to the same message" % STRICT_TAMPERED_PACKET])
     items = items_for(tier)
@@ -366,6 +457,7 @@ def main(tier):
                    "mac": set(P.MACS), "zlib": {True, False},
                    "edit": set(EDIT_CLASS.values()) - {"flip2"}, "end": set(ENDS), "packet": {"small", "large"}})
     ck.extra["bound"] = {"suites": len(set(i[2] for i in items)), "work_items": len(items),
+                         "read_calls_after_a_rejection": KEEP_READING,
                          "message_lengths": list(LENGTHS), "double_faults": tier != "quick",
                          "large_packet": {"message_lengths": list(LARGE_LENGTHS),
                                           "streams": len([i for i in items if i[0] == "large"]),
@@ -397,11 +489,17 @@ def replay(rec):
     end = case.get("end") or "waits"
     r = run_edit(direction, script, newkeys, sent, edited, end)
     clause = judge(sent, r, n_intact)
+    if clause == "accepted-tampered-packet" and not STRICT_TAMPERED_PACKET:
+        clause = None
+    if not clause and r.after:
+        clause = judge_after(sent, r)
     print("suite", suite, direction, "message lengths", [len(x) for x in sent], "edit", lab, pos,
           "first changed byte", lcp, "intact packets", n_intact, "stream end", end)
     print("sent     ", [s.hex()[:48] for s in sent])
     print("delivered", [g.hex()[:48] for g in r.got])
-    print("then", outcome_of(r) if (r.waits or r.error) else "none", "| verdict:", clause or "property held")
-    if clause == "accepted-tampered-packet" and not STRICT_TAMPERED_PACKET:
-        clause = None
+    print("then", outcome_of(r) if (r.waits or r.error) else "none")
+    if r.rejections:
+        print("reader kept calling read_message: %d call(s) raised, delivered afterwards %r, then %s"
+              % (r.rejections, [g.hex()[:48] for g in r.after], r.after_end))
+    print("verdict:", clause or "property held")
     return 1 if clause else 0
